@@ -34,6 +34,19 @@ func ValueOf(query *Query, current Map, any any) (any, error) {
 			if cte, ok := rs.(CteEvaluation); ok {
 				return cte()
 			}
+			// the bare back-navigation marker: the enclosing document as it
+			// is now, not the live scope (which is about to hold the rows
+			// that refer to it), without pending CTEs and its own marker
+			if scope, ok := rs.(Map); ok && string(value) == "<-" {
+				snapshot := make(Map, len(scope))
+				for key, value := range scope {
+					if _, isCte := value.(CteEvaluation); isCte || key == "<-" {
+						continue
+					}
+					snapshot[key] = value
+				}
+				return snapshot, nil
+			}
 			return rs, nil
 		}
 	case NeutalString:
